@@ -56,6 +56,7 @@ fn main() {
                 "c07" => checks::c07::replay(&w.extra),
                 "c16" => checks::c16::replay(&w.extra),
                 "c18" => checks::c18::replay(&w.extra),
+                "c10" => checks::c10::replay(&w.extra, w.schema_sdl.as_deref()),
                 "c15" => checks::c15::replay(w.case.as_ref().expect("witness without case"), &w.extra),
                 "c21" => checks::c21::replay(w.case.as_ref().expect("witness without case")),
                 "c13" => checks::c13::replay(w.case.as_ref().expect("witness without case")),
@@ -77,6 +78,22 @@ fn main() {
                 }
             }
         }
+        "compile" => {
+            // debugging aid: tfv compile <VS|path-to-sdl> <query text>
+            let sdl = if args[2] == "VS" { model::vs_schema().to_sdl() } else { std::fs::read_to_string(&args[2]).expect("sdl") };
+            let schema = match adapter::parse_schema(&sdl) {
+                Ok(Ok(s)) => s,
+                other => {
+                    println!("schema: {other:?}");
+                    return;
+                }
+            };
+            match adapter::compile(&schema, &args[3]) {
+                adapter::Compiled::Ok(q) => println!("OK outputs={:?} variables={:?}", q.outputs.keys().collect::<Vec<_>>(), q.ir_query.variables),
+                adapter::Compiled::Rejected(k) => println!("REJECTED {k}: {:?}", trustfall_core::frontend::parse(&schema, &args[3]).err()),
+                adapter::Compiled::Panicked(p) => println!("PANIC {} at {}", p.message, p.location),
+            }
+        }
         "dump" => {
             // print a few generated queries (debugging aid)
             let mut rng = rng::Rng::new(seed);
@@ -94,6 +111,7 @@ fn main() {
                 "C01" => checks::c01::run(&mut report, seed, cases),
                 "C09" => checks::c09::run(&mut report, seed, cases),
                 "C22" => checks::c22::run(&mut report, seed, cases),
+                "C10" => checks::c10::run(&mut report, seed, cases),
                 "C18" => checks::c18::run(&mut report, seed, cases),
                 "C16" => checks::c16::run(&mut report, seed, cases, param("--slice", 0)),
                 "C07" => checks::c07::run(&mut report, seed, cases, param("--variable-values", 6) as usize, param("--slice", 0)),
